@@ -112,6 +112,26 @@ def gen_ops(tier, rng):
             ops.append((f"api {fam} {d} {p} split {n} {c}", {"cat": "split"}))
         for each in [-1, 0, 1, 64, 100]:
             ops.append((f"api {fam} {d} {p} alloc {each}", {"cat": "alloc"}))
+    # EXHAUSTIVE small-shape grids: every assignment of {nil, empty non-nil, empty with capacity, right size, other size} to
+    # every argument position of a 2+1 (and a Leopard 2+2) encoder, for the calls whose kernels slice their arguments
+    import itertools
+    alpha = {"default": ["n", "e", "c12", "10", "11"], "leo8": ["n", "e", "c64", "64", "128"]}
+    for (fam, d, p) in [("default", 2, 1), ("leo8", 2, 2)]:
+        A = alpha[fam]
+        for sh in itertools.product(A, repeat=d + p):
+            shs = ",".join(sh)
+            ops.append((f"api {fam} {d} {p} enc {shs}", {"cat": "grid-enc"}))
+            ops.append((f"api {fam} {d} {p} ver {shs}", {"cat": "grid-ver"}))
+            ops.append((f"api {fam} {d} {p} rec all - {shs}", {"cat": "grid-rec"}))
+            ops.append((f"api {fam} {d} {p} rec data - {shs}", {"cat": "grid-rec"}))
+            if fam == "default":
+                for nw in itertools.product(A, repeat=d):
+                    ops.append((f"api {fam} {d} {p} upd {shs} {','.join(nw)}", {"cat": "grid-upd"}))
+        if fam == "default":
+            for psh in itertools.product(A, repeat=p):
+                for dl in ["n", "0", "10", "11"]:          # the data argument is given as a length (0 = empty, non-nil)
+                    for idx in range(-1, d + 1):
+                        ops.append((f"api {fam} {d} {p} idx {dl} {idx} {','.join(psh)}", {"cat": "grid-idx"}))
     # stream calls whose readers / writers fail, sequential and concurrent I/O, under the watchdog: a documented error,
     # never a hang or a leaked goroutine (the fault grammar and the model's answers are C15's)
     from . import c15
@@ -128,7 +148,10 @@ def gen_ops(tier, rng):
 def corpus_ops():
     return [("new 200 56 leo8", {"cat": "corpus"}), ("new 40000 20000 -", {"cat": "corpus"}), ("newstream 4 2 leo8", {"cat": "corpus"}),
             ("api default 4 2 join -1 10,10,10,10", {"cat": "corpus"}), ("api default 4 2 alloc -1", {"cat": "corpus"}),
-            ("api default 4 3 rec some 4:1 100,n,100,100,100,n,100", {"cat": "corpus"})]
+            ("api default 4 3 rec some 4:1 100,n,100,100,100,n,100", {"cat": "corpus"}),
+            # fix bd2a6b4: an empty non-nil old data shard with a replacement given / an empty non-nil parity shard
+            ("api default 4 2 upd 10,e,10,10,10,10 n,10,10,10", {"cat": "corpus"}),
+            ("api default 4 2 upd 10,10,10,10,e,10 10,n,n,n", {"cat": "corpus"})]
 
 
 def execute(ops, ctx):
